@@ -3560,8 +3560,10 @@ class SetInstance(object):
             except:
                 for undo_func in reversed(undo_funcs): undo_func()
                 raise
+        if reverse.is_collection:
+            # for one-to-many the items were already taken out of setdata (and counted) by reverse_remove()
+            if setdata.count is not None: setdata.count -= len(items)
         setdata -= items
-        if setdata.count is not None: setdata.count -= len(items)
         added = setdata.added
         removed = setdata.removed
         if added: (items, setdata.added) = (items - added, added - items)
